@@ -19,6 +19,7 @@ import (
 	"github.com/gopher-fleece/gleece/v2/core/validators/diagnostics"
 	"github.com/gopher-fleece/gleece/v2/definitions"
 	"github.com/gopher-fleece/gleece/v2/generator/routes"
+	"github.com/gopher-fleece/gleece/v2/generator/swagen"
 )
 
 // ---- mode "rig": the DYNAMIC tie. An abstract project is printed as Go source whose controller methods
@@ -39,6 +40,7 @@ type rigReq struct {
 	Body    string              `json:"body,omitempty"`
 	Deny    []string            `json:"deny,omitempty"` // scheme names the callback refuses
 	NilCtx  bool                `json:"nilCtx,omitempty"` // … and it refuses with a nil context
+	DenyStatus int              `json:"denyStatus,omitempty"` // … with this status (0: 403)
 	BodyType string             `json:"bodyType,omitempty"` // declared type of the JSON body when it is not Item (bookkeeping for the model)
 }
 
@@ -149,6 +151,7 @@ func rigAuthSrc(engine string) string {
 
 import (
 	"context"
+	"strconv"
 	"strings"
 
 	%s
@@ -158,17 +161,21 @@ import (
 
 func GleeceRequestAuthorization(ctx context.Context, %s, check runtime.SecurityCheck) (context.Context, *runtime.SecurityError) {
 	rigrec.Auth(check.SchemaName, check.Scopes)
+	status := 403
+	if n, err := strconv.Atoi(%s); err == nil && n > 0 {
+		status = n // the refusal's own status: the response must carry it
+	}
 	for _, d := range strings.Split(%s, ",") {
 		if d != "" && d == check.SchemaName {
 			if %s != "" {
-				return nil, &runtime.SecurityError{Message: "denied " + d, StatusCode: 403} // a refusal need not carry a context
+				return nil, &runtime.SecurityError{Message: "denied " + d, StatusCode: runtime.HttpStatusCode(status)} // a refusal need not carry a context
 			}
-			return ctx, &runtime.SecurityError{Message: "denied " + d, StatusCode: 403}
+			return ctx, &runtime.SecurityError{Message: "denied " + d, StatusCode: runtime.HttpStatusCode(status)}
 		}
 	}
 	return ctx, nil
 }
-`, engine, imp, projModule, ctxParam, hdr, strings.Replace(hdr, "X-Rig-Deny", "X-Rig-Nilctx", 1))
+`, engine, imp, projModule, ctxParam, strings.Replace(hdr, "X-Rig-Deny", "X-Rig-Deny-Status", 1), hdr, strings.Replace(hdr, "X-Rig-Deny", "X-Rig-Nilctx", 1))
 }
 
 const rigMainSrc = `package main
@@ -207,6 +214,7 @@ type req struct {
 	Body    string              ` + "`json:\"body\"`" + `
 	Deny    []string            ` + "`json:\"deny\"`" + `
 	NilCtx  bool                ` + "`json:\"nilCtx\"`" + `
+	DenyStatus int              ` + "`json:\"denyStatus\"`" + `
 }
 
 type resp struct {
@@ -239,6 +247,9 @@ func build(r req) *http.Request {
 	}
 	if r.NilCtx {
 		hr.Header.Set("X-Rig-Nilctx", "1")
+	}
+	if r.DenyStatus != 0 {
+		hr.Header.Set("X-Rig-Deny-Status", fmt.Sprint(r.DenyStatus))
 	}
 	return hr
 }
@@ -396,6 +407,12 @@ func runRig(ri rigIn) (out rigOut) {
 		out.ProjErr = "intermediate: " + firstLines(err.Error(), 3)
 		return
 	}
+	// the real command (cmd.GenerateSpecAndRoutes) builds the document first and hands the SAME metadata to the
+	// routes generator: so does the rig
+	func() {
+		defer func() { recover() }()
+		swagen.GenerateSpec(&cfg.OpenAPIGeneratorConfig, meta.Flat, &meta.Models, meta.PlainErrorPresent)
+	}()
 	for _, e := range rigEngines {
 		c2 := *cfg
 		c2.RoutesConfig.Engine = definitions.RoutingEngineType(e)
